@@ -23,7 +23,9 @@ RULE = (
     "entry follows within the broker's resume bound. In 30% of the in-memory/Redis runs a second worker with another actor "
     "shares queue q0 and is saturated by slow jobs enqueued first: while it is saturated, the first worker must not sit on a "
     "free slot with a deliverable message of its own waiting for more than 1 s + resume bound (the other liveness clauses are "
-    "not judged in these runs). non-trivial = the limit was reached; distinct = interleaving digest."
+    "not judged in these runs). 15% of the runs use synchronous actors on simulated pool threads/processes with 1-3 functions "
+    "overrunning a 1 s execution timeout (an uncancellable function counts against the limit until it returns; while the loop "
+    "joins such a thread the resume bound is extended by the blocked interval). non-trivial = the limit was reached; distinct = interleaving digest."
 )
 SHRINK_LISTS = ("jobs",)
 ASSUMPTIONS = ["resume bounds: in-memory 0.25 s, Redis 0.8 s, RabbitMQ 0.45 s + 6 network latencies (pause polling constants of the consumers), "
@@ -72,12 +74,24 @@ def gen(rng, broker, tier):
         else:
             j["after"] = {"job": f"j{rng.randrange(0, i)}", "k": rng.randint(0, 6)}
         jobs.append(j)
+    sync = None
+    if rng.random() < 0.15:
+        # synchronous actors (pool threads or processes): a thread cannot be cancelled - a function which overruns its job's
+        # execution timeout is still in progress until it returns, and counts against the limit until then
+        sync = rng.choice(["thread", "thread", "process"])
+        for j in jobs:
+            j["beh"] = [{"do": b_["do"] if b_["do"] in ("return", "raise") else "return", "dur_us": b_.get("dur_us", 0)} for b_ in j["beh"]]
+            j["timeout_s"] = 600
+        for j in rng.sample(jobs, min(len(jobs), rng.randint(1, 3))):
+            j["timeout_s"] = 1
+            j.pop("retries", None)
+            j["beh"] = [{"do": "return", "dur_us": rng.choice([1_200_000, 1_700_000, 2_500_000])}]
     second = None
-    if rng.random() < 0.3 and broker == "mem":
+    if rng.random() < 0.3 and broker == "mem" and not sync:
         # (not on RabbitMQ: consumers with different topic filters on one queue bounce each other's messages by design)
         # another worker with another actor shares queue q0 and is saturated by slow jobs which were enqueued first
         second = {"n": rng.randint(3, 5), "dur_us": rng.choice([1_500_000, 3_000_000]), "limit": 1}
-    return {"jobs": jobs, "tasks_limit": limit, "nq": nq, "second": second,
+    return {"jobs": jobs, "tasks_limit": limit, "nq": nq, "second": second, "sync": sync,
             "knobs": {"step_cost": rng.choice([0, 0, 1, "rand"]),
                       "net": {"lat_lo": 50, "lat_hi": rng.choice([300, 3000]), "frag_p": rng.choice([0, 0.1])}}}
 
@@ -95,7 +109,8 @@ async def _main(sim, sc, out):
         sc = dict(sc, jobs=zjobs + sc["jobs"])
     jobs = {j["id"]: j for j in sc["jobs"]}
     state = workload.ActorState(world, jobs)
-    router = workload.build_router(state, [{"name": f"a{q}", "queue": f"q{q}", "policy": {"kind": "table", "us": [10_000]}}
+    router = workload.build_router(state, [{"name": f"a{q}", "queue": f"q{q}", "policy": {"kind": "table", "us": [10_000]},
+                                            "sync": bool(sc.get("sync")), "run_in_process": sc.get("sync") == "process"}
                                            for q in range(sc["nq"])])
     V = out["violations"]
     rec = world.rec
@@ -229,6 +244,9 @@ async def _main(sim, sc, out):
         # every expired message found on the way costs the polling consumers one more round over the priorities
         ttl_ahead = sum(1 for (t, k) in enq_times if jobs[k].get("ttl_s") and t < nxt and start_of.get(k, 1 << 62) > us)
         allowed = resume + (0 if b == "mem" else ttl_ahead * (450_000 + 6 * lat))
+        # synchronous actors: while the loop's thread joins a pool thread whose function overran its timeout, nothing runs
+        blocked = [(f_, t_) for (f_, t_) in sim.loop.blocked if t_ > us and f_ < nxt]
+        allowed += sum(t_ - f_ for (f_, t_) in blocked) + (resume if blocked else 0)
         worst = max(worst, nxt - us)
         if nxt - us > allowed:
             V.append(violation("slow-resume", f"C09/{b}/slot-free-but-next-start-late", gap_us=nxt - us, bound_us=allowed,
